@@ -368,14 +368,14 @@ Proof.
     assert (Good : Led (fd :: own) (set_fs (log o1 (ELock fd true)) (upd (fs (log o1 (ELock fd true))) p (Some [])))).
     { eapply Led_ext; [apply (Lok true)| | | |]; reflexivity. }
     destruct (cscr o (nopen o)); cbv zeta in H; inversion H; subst.
-    + exists fd. repeat split; auto.
+    + exists fd. split; [reflexivity|]. split; [exact Good|]. split; [exact Hnot|]. split; simpl; auto.
+    + exists fd. split; [reflexivity|]. split; [exact Good|]. split; [exact Hnot|]. split; simpl; auto.
     + split.
       * pose proof (Led_close _ _ fd (Lok false) (or_introl eq_refl)) as Lc.
         simpl in Lc. rewrite Nat.eqb_refl in Lc. simpl in Lc.
         rewrite filter_neq_notin in Lc by auto.
         eapply Led_ext; [exact Lc| | | |]; reflexivity.
-      * simpl. destruct (os_close_frame (log o1 (ELock fd false)) (Some fd)) as (_ & Hn & _). rewrite Hn. simpl. lia.
-    + exists fd. repeat split; auto.
+      * simpl. rewrite Hlk. simpl. lia.
   - inversion H; subst. split.
     + eapply Led_open_fail in E; eauto. eapply Led_ext; [exact E| | | |]; reflexivity.
     + apply os_open_fail in E. destruct E as (_ & _ & _ & _ & Hf & _). simpl. lia.
@@ -409,7 +409,7 @@ Proof.
     simpl in Lc. rewrite Nat.eqb_refl in Lc. simpl in Lc. rewrite filter_neq_notin in Lc by auto.
     inversion H; subst. split.
     + eapply Led_ext; [exact Lc| | | |]; reflexivity.
-    + simpl. destruct (os_close_frame o1 (Some fd)) as (_ & Hn & _). congruence.
+    + simpl. rewrite Hlk. simpl. exact Hf1.
   - inversion H; subst. split.
     + eapply Led_open_fail in E; eauto. eapply Led_ext; [exact E| | | |]; reflexivity.
     + apply os_open_fail in E. destruct E as (_ & _ & _ & _ & Hf & _). simpl. lia.
@@ -423,7 +423,8 @@ Proof.
   destruct (fs o p) eqn:F. { now inversion H; subst. }
   destruct (os_open o p) as [o1 [fd|]] eqn:E.
   - pose proof (os_open_ok _ _ _ _ E) as (_ & _ & Hfs & _). rewrite F in Hfs.
-    inversion H; subst. simpl. destruct (os_close_frame o1 (Some fd)) as (Hc & _). rewrite Hc, Hfs.
+    destruct (os_close_frame o1 (Some fd)) as (Hc & _).
+    remember (os_close o1 (Some fd)) as oc. inversion H; subst o' ok. simpl. rewrite Hc, Hfs.
     destruct (String.eqb q p) eqn:Q.
     + apply String.eqb_eq in Q. subst. now rewrite upd_same.
     + apply String.eqb_neq in Q. now rewrite !upd_other by auto.
